@@ -120,6 +120,24 @@ def parseObs (toks : List String) : Option Obs :=
     | none => none
   | _ => none
 
+/-- an `xmit` line as the model logs it: without the message length that the probe appends -/
+def modelView (line : String) : String :=
+  match words line with
+  | t :: p :: "xmit" :: src :: dst :: serial :: _ => " ".intercalate [t, p, "xmit", src, dst, serial]
+  | _ => line
+
+/-- `body map|set <n>`: the exact length of a message with that body: 64 (header) + 8 (serial) + the entries
+    (map: 4-byte key + value of length 1 + 7i mod 13; set: element of length 3 + 5i mod 11) -/
+def bodyLength (body : List String) : Nat :=
+  let plain := 72
+  match body.findSome? (fun l => match words l with
+      | ["body", k, n] => if k == "map" || k == "set" then n.toNat?.map (fun n => (k == "map", n)) else none
+      | _ => none) with
+  | some (isMap, n) =>
+    if n > 999 then plain
+    else plain + ((List.range n).map (fun i => if isMap then 4 + 1 + (i * 7) % 13 else 3 + (i * 5) % 11)).sum
+  | none => plain
+
 def fmtObs (o : Obs) : String :=
   s!"{o.time} {o.path} {o.what} {o.who} {o.peer}" ++ String.join (o.args.map (fun a => s!" {a}"))
 
@@ -201,7 +219,9 @@ def main (stdin : IO.FS.Stream) : IO Unit := do
       | "o" :: r :: rest =>
         let ro := runs.getD r {}
         match parseObs rest with
-        | some o => runs := runs.insert r { ro with obs := ro.obs.push o, raw := ro.raw.push (" ".intercalate rest) }
+        | some o =>
+          let o := if o.what == "xmit" then { o with args := o.args.take 1 } else o
+          runs := runs.insert r { ro with obs := ro.obs.push o, raw := ro.raw.push (" ".intercalate rest) }
         | none => runs := runs.insert r { ro with raw := ro.raw.push ("unparsable " ++ " ".intercalate rest) }
       | "d" :: r :: rest =>
         let ro := runs.getD r {}
@@ -256,6 +276,14 @@ def main (stdin : IO.FS.Stream) : IO Unit := do
     if let some v := verdict then
       IO.println v
       continue
+    -- every transmission must have used the exact length of its message (header + serial + all entries of the body)
+    let want := bodyLength c.body
+    let badLen := (a1.raw.toList.zipIdx).find? (fun x => match words x.1 with
+      | _ :: _ :: "xmit" :: _ :: _ :: _ :: len :: _ => len.toNat? != some want
+      | _ => false)
+    if let some (l, i) := badLen then
+      IO.println s!"fail {id} op={i} kind=reject clause=message-length seed={seed} want={want} line={us l}"
+      continue
     -- `nomodel=1`: the case uses what the model does not cover (tasks on the module's LocalSet, logged as `L.<tag>`):
     -- the comparison of the real executions is the whole check
     if noModel then
@@ -292,7 +320,7 @@ def main (stdin : IO.FS.Stream) : IO Unit := do
       let amb : Ambient := ⟨fun k => 255 + base + k, fun k => 7 * base + k⟩
       let res := run net amb stream 200000
       let mtrace := (res.trace.map fmtObs).toArray
-      match firstDiff mtrace a1.raw with
+      match firstDiff mtrace (a1.raw.map modelView) with
       | some i =>
         IO.println s!"fail {id} op={i} kind=diverge seed={seed} model={us (mtrace[i]?.getD "<end>")} impl={us (a1.raw[i]?.getD "<end>")}"
         continue
